@@ -1,5 +1,4 @@
 import PGV.Props.C10
-import PGV.Props.Facts
 
 #print axioms PGV.Props.C10.C10_linearizable
 #print axioms PGV.Props.C10.C10_state_is_sequential
